@@ -1,9 +1,355 @@
 /-
-  C09 — backends receive exactly the client's request.
-  (property theorems; helper lemmas live in LtVerif/Proofs)
+  C09 — backends receive exactly the client's request (env, headers, body).
+  Property theorems only (helper lemmas live in LtVerif/Proofs).
+
+  Models: Model/Cgi.lean (http_cgi_headers, http_cgi_encode_varname, gw_check_extension
+  path-info split, mod_cgi envp), Model/Fcgi.lean (fcgi_create_env, fcgi_env_add,
+  fcgi_stdin_append + FastCGI receiver), Model/Scgi.lean (scgi_create_env: netstring, uwsgi
+  packet + receivers), Model/ProxyReq.lean (proxy_create_env, proxy_stdin_append).
 -/
-import LtVerif.Model.ProxyReq
+import LtVerif.Proofs.Cgi
+import LtVerif.Proofs.FcgiRun
+import LtVerif.Proofs.Scgi
+import LtVerif.Proofs.Proxy
+import LtVerif.Extracted.H1Tables
 namespace LtVerif.C09
 open LtVerif B
+
+/-! ## header names -> variable names -/
+
+/-- http_cgi_encode_varname(): for EVERY field name the variable starts with "HTTP_", so it
+    is never one of the server-defined meta-variables, and it is HTTP_PROXY exactly for the
+    field "Proxy" (any letter case) -/
+theorem c09_varname (n : Bytes) :
+    httpPrefix <+: encodeVarname true n ∧
+    encodeVarname true n ∉ metaNames ∧
+    (encodeVarname true n = ofString "HTTP_PROXY" ↔ eqIcase n (ofString "Proxy") = true) ∧
+    (∀ b ∈ encodeVarname true n, isUpper b = true ∨ isDigit b = true ∨ b = uscore) := by
+  refine ⟨?_, encodeVarname_not_meta n, encodeVarname_proxy_iff n, ?_⟩
+  · rw [encodeVarname_hdr]; exact List.prefix_append _ _
+  · intro b hb
+    rw [encodeVarname_hdr] at hb
+    rcases List.mem_append.mp hb with h | h
+    · have : ∀ x ∈ httpPrefix, isUpper x = true ∨ isDigit x = true ∨ x = uscore := by decide
+      exact this b h
+    · obtain ⟨c, _, rfl⟩ := List.mem_map.mp h
+      exact enc_charset c
+
+example : encodeVarname true (ofString "X-Forwarded_For.1") = ofString "HTTP_X_FORWARDED_FOR_1" := by decide
+example : encodeVarname true (ofString "pRoXy") = ofString "HTTP_PROXY" := by decide
+example : encodeVarname true (ofString "Remote-Addr") = ofString "HTTP_REMOTE_ADDR" := by decide
+
+/-- what the client's fields become (the header loop of http_cgi_headers(), for every field
+    list): never HTTP_PROXY; a server-defined name is impossible; CONTENT_TYPE only from a
+    Content-Type field and with its value; every variable comes from a field of the request -/
+theorem c09_header_vars_sound (hs : List (Bytes × Bytes)) :
+    ∀ p ∈ headerVars hs,
+      p.1 ≠ ofString "HTTP_PROXY" ∧ p.1 ∉ metaNames ∧
+      ∃ k, (k, p.2) ∈ hs ∧ p.2 ≠ [] ∧ eqIcase k (ofString "Proxy") = false ∧
+        ((eqIcase k (ofString "Content-Type") = true ∧ p.1 = ofString "CONTENT_TYPE") ∨
+         (eqIcase k (ofString "Content-Type") = false ∧ p.1 = encodeVarname true k)) := by
+  intro p hp
+  simp only [headerVars, List.mem_filterMap] at hp
+  obtain ⟨⟨k, v⟩, hmem, hv⟩ := hp
+  simp only [headerVar] at hv
+  by_cases h1 : v.isEmpty = true
+  · simp [h1] at hv
+  · by_cases h2 : eqIcase k (ofString "Proxy") = true
+    · simp [h1, h2] at hv
+    · have hvne : v ≠ [] := by intro e; apply h1; rw [e]; rfl
+      have h2' : eqIcase k (ofString "Proxy") = false := by simpa using h2
+      by_cases h3 : eqIcase k (ofString "Content-Type") = true
+      · simp only [h1, Bool.false_eq_true, ↓reduceIte, h2, h3, Option.some.injEq] at hv
+        subst hv
+        exact ⟨by show ofString "CONTENT_TYPE" ≠ ofString "HTTP_PROXY"; decide,
+               contentType_not_meta, k, hmem, hvne, h2', Or.inl ⟨h3, rfl⟩⟩
+      · simp only [h1, Bool.false_eq_true, ↓reduceIte, h2, h3, Option.some.injEq] at hv
+        subst hv
+        refine ⟨?_, encodeVarname_not_meta k, k, hmem, hvne, h2', Or.inr ⟨by simpa using h3, rfl⟩⟩
+        intro e
+        exact h2 ((encodeVarname_proxy_iff k).mp e)
+
+/-- ... and nothing is lost: every field with a value, other than Proxy, is passed with
+    its value unchanged -/
+theorem c09_header_vars_complete (hs : List (Bytes × Bytes)) (k v : Bytes)
+    (hmem : (k, v) ∈ hs) (hv : v ≠ []) (hp : eqIcase k (ofString "Proxy") = false) :
+    (if eqIcase k (ofString "Content-Type") then ofString "CONTENT_TYPE" else encodeVarname true k, v)
+      ∈ headerVars hs := by
+  simp only [headerVars, List.mem_filterMap]
+  refine ⟨(k, v), hmem, ?_⟩
+  have h1 : v.isEmpty = false := by cases v <;> simp_all
+  simp only [headerVar, h1, Bool.false_eq_true, ↓reduceIte, hp]
+  split <;> rfl
+
+example : headerVars [(ofString "Proxy", ofString "evil"), (ofString "content-TYPE", ofString "a/b"),
+                      (ofString "Content_Length", ofString "9"), (ofString "X-Empty", [])] =
+    [(ofString "CONTENT_TYPE", ofString "a/b"), (ofString "HTTP_CONTENT_LENGTH", ofString "9")] := by decide
+
+/-- the name -> id assumptions the models make hold for the http_headers[] table of the
+    current source (regenerated each run): the fields the code special-cases by id are in
+    the table, "Proxy" / "Proxy-Connection" are not (they are HTTP_HEADER_OTHER) -/
+theorem c09_header_ids :
+    (∀ n ∈ ["content-type", "content-length", "host", "connection", "te", "upgrade", "set-cookie",
+            "transfer-encoding", "forwarded", "x-forwarded-for", "x-forwarded-proto"],
+       n ∈ Extracted.headerNames) ∧
+    "proxy" ∉ Extracted.headerNames ∧ "proxy-connection" ∉ Extracted.headerNames := by decide
+
+/-! ## meta-variables (RFC 3875 4.1) -/
+
+/-- http_cgi_headers(): the request-line, body-length and script variables carry exactly the
+    request's values, each at most once, for every request and option set -/
+theorem c09_meta_rfc3875 (o : CgiOpts) (r : CgiReq) (v : Bytes) :
+    (("QUERY_STRING", v) ∈ cgiMetaS o r ↔ v = r.query) ∧
+    (("REQUEST_URI", v) ∈ cgiMetaS o r ↔ v = requestUri o.stripRequestUri r.targetOrig) ∧
+    (("CONTENT_LENGTH", v) ∈ cgiMetaS o r ↔ o.authorizer = false ∧ v = intDec r.bodyLen) ∧
+    (("SCRIPT_NAME", v) ∈ cgiMetaS o r ↔ o.authorizer = false ∧ v = r.path) ∧
+    (("PATH_INFO", v) ∈ cgiMetaS o r ↔ o.authorizer = false ∧ r.pathinfo ≠ [] ∧ v = r.pathinfo) ∧
+    (("REQUEST_METHOD", v) ∈ cgiMetaS o r ↔
+        v = if r.h2ConnectExt then ofString "GET" else r.method) ∧
+    (("SERVER_PROTOCOL", v) ∈ cgiMetaS o r ↔
+        v = if r.h2ConnectExt then ofString "HTTP/1.1" else versionName r.version) ∧
+    (("REMOTE_ADDR", v) ∈ cgiMetaS o r ↔ v = r.remoteAddr) := by
+  have hne : ∀ l : Bytes, (!l.isEmpty) = true ↔ l ≠ [] := by intro l; cases l <;> simp
+  refine ⟨?_, ?_, ?_, ?_, ?_, ?_, ?_, ?_⟩ <;>
+    simp [cgiMetaS, List.mem_filterMap, optE, eq_comm (a := v), hne, and_assoc]
+
+/-- CONTENT_LENGTH is the first variable (SCGI requires it) -/
+theorem c09_content_length_first (o : CgiOpts) (r : CgiReq) (h : o.authorizer = false) :
+    (cgiEnv o r).head? = some (ofString "CONTENT_LENGTH", intDec r.bodyLen) := by
+  simp [cgiEnv, cgiMeta, cgiMetaS, optE, h]
+
+/-- no client field can add or replace a server-defined variable: the names produced by the
+    fixed part are server names (plus the three synthesised HTTP/2 extended-CONNECT fields), the
+    names produced from the client's fields are never among them -/
+theorem c09_no_override (o : CgiOpts) (r : CgiReq) (hext : r.h2ConnectExt = false) :
+    ∀ q ∈ cgiMeta o r, ∀ p ∈ headerVars r.headers, p.1 ≠ q.1 := by
+  intro q hq p hp e
+  simp only [cgiMeta, List.mem_map] at hq
+  obtain ⟨s, hs, rfl⟩ := hq
+  have hname : ofString s.1 ∈ metaNames := by
+    rcases cgiMetaS_names o r s hs with h | ⟨h, _⟩
+    · exact List.mem_map.mpr ⟨s.1, h, rfl⟩
+    · rw [hext] at h; exact absurd h (by simp)
+  have := (c09_header_vars_sound r.headers p hp).2.1
+  rw [e] at this
+  exact this hname
+
+example :
+    (cgiEnv {} { bodyLen := 3, query := ofString "a?b", targetOrig := ofString "/x/y?a?b",
+                 target := ofString "/x/y?a?b", path := ofString "/x", pathinfo := ofString "/y",
+                 method := ofString "POST",
+                 headers := [(ofString "Script-Name", ofString "/evil")] }).filter
+      (fun p => p.1 = ofString "SCRIPT_NAME" || p.1 = ofString "QUERY_STRING"
+                || p.1 = ofString "HTTP_SCRIPT_NAME")
+    = [(ofString "QUERY_STRING", ofString "a?b"), (ofString "SCRIPT_NAME", ofString "/x"),
+       (ofString "HTTP_SCRIPT_NAME", ofString "/evil")] := by decide
+
+/-- gw_check_extension(): SCRIPT_NAME ++ PATH_INFO is the request path, for every
+    extension prefix and path; PATH_INFO is empty or starts with '/' -/
+theorem c09_script_name_path_info (key : Bytes) (fixRoot : Bool) (path : Bytes)
+    (hp : path.head? = some slash) :
+    (gwPathinfoSplit key fixRoot path).1 ++ (gwPathinfoSplit key fixRoot path).2 = path ∧
+    ((gwPathinfoSplit key fixRoot path).2 = [] ∨
+     (gwPathinfoSplit key fixRoot path).2.head? = some slash) :=
+  ⟨gwPathinfoSplit_concat key fixRoot path, gwPathinfoSplit_pathinfo key fixRoot path hp⟩
+
+example : gwPathinfoSplit (ofString "/cgi-bin/") false (ofString "/cgi-bin/foo/bar") =
+    (ofString "/cgi-bin/foo", ofString "/bar") := by decide
+example : gwPathinfoSplit (ofString "/") true (ofString "/a/b") = ([], ofString "/a/b") := by decide
+
+/-- http_request_parse_target() with URL normalisation off: the query is what follows the
+    FIRST '?' of the target (fragment cut off), the path what precedes it.
+    FULL STATEMENT (planned c09_meta_rfc3875, query part): the same for every parseopts set.
+    `_partial`: the normalising variants (burl_normalize) are covered by the correspondence
+    and the oracle of the url stream only (defect D4 lived there). -/
+theorem c09_query_after_first_qmark_partial (o : Opts) (t : Bytes) (tg : Target)
+    (hn : o.urlNormalize = false) (h : parseTarget o false t = .ok tg) :
+    (qmark ∉ t.takeWhile (· ≠ hash) ∧ tg.query = [] ∧ tg.target = t.takeWhile (· ≠ hash)) ∨
+    (∃ pre, qmark ∉ pre ∧ t.takeWhile (· ≠ hash) = pre ++ qmark :: tg.query) := by
+  simp only [parseTarget, Bool.false_eq_true, ↓reduceIte, hn] at h
+  obtain ⟨hsome, hnone⟩ := findIdx_spec (· = qmark) (t.takeWhile (· ≠ hash)) 0
+  cases hq : findIdx (fun x => decide (x = qmark)) (t.takeWhile (· ≠ hash)) 0 with
+  | none =>
+    left
+    rw [hq] at h
+    simp only at h
+    split at h
+    · simp only [Except.ok.injEq] at h
+      subst h
+      refine ⟨?_, rfl, rfl⟩
+      intro hm
+      have := hnone hq qmark hm
+      simp at this
+    · simp at h
+  | some i =>
+    right
+    rw [hq] at h
+    simp only at h
+    obtain ⟨_, x, hx1, hx2, hx3⟩ := hsome i hq
+    have hxq : x = qmark := by simpa using hx2
+    split at h
+    · simp only [Except.ok.injEq] at h
+      subst h
+      refine ⟨(t.takeWhile (· ≠ hash)).take i, ?_, ?_⟩
+      · intro hm
+        have := hx3 qmark (by simpa using hm)
+        simp at this
+      · simp only [Nat.sub_zero] at hx1
+        rw [hxq] at hx1
+        exact hx1
+    · simp at h
+
+example : (match parseTarget ⟨0⟩ false (ofString "/x?a?b#f?c") with
+           | .ok tg => tg.target == ofString "/x?a?b" && tg.path == ofString "/x" && tg.query == ofString "a?b"
+           | .error _ => false) = true := by decide
+
+/-! ## FastCGI -/
+
+/-- fcgi_create_env() + fcgi_stdin_append() under EVERY arrival schedule of the body
+    (`seg0` queued when the backend request is created, `segs` arriving later, any sizes,
+    any number of refills): the request is refused (400) exactly when the variables do not fit
+    one PARAMS record; otherwise the bytes queued for the backend decode — by the FastCGI
+    specification's record/stream/name-value rules — to exactly (role, env, body): one
+    BEGIN_REQUEST, PARAMS closed once, STDIN closed once with nothing after it (every record
+    <= 65535 by construction of the 16-bit length field), nothing left in the request-body
+    queue and the gateway's expected request length equal to what was queued. -/
+theorem c09_fcgi_roundtrip (role : Nat) (hrole : role < 256) (hresp : role ≠ Extracted.C09.gwAuthorizer)
+    (env : List (Bytes × Bytes)) (henv : env ≠ []) (seg0 : Bytes) (segs : List Bytes) :
+    (Fcgi.run role false env (((seg0 :: segs).flatten.length : Nat) : Int) seg0 segs = none ↔
+      Fcgi.maxLen < (Fcgi.nvPairs env).length) ∧
+    ∀ st, Fcgi.run role false env (((seg0 :: segs).flatten.length : Nat) : Int) seg0 segs = some st →
+      Fcgi.decode st.out =
+        some { role := role, flags := 0, env := env, stdin := (seg0 :: segs).flatten } ∧
+      st.pending = [] ∧ st.reqlen = (st.out.length : Int) := by
+  rcases Fcgi.run_spec role hresp env seg0 segs with ⟨h1, h2⟩ | ⟨h1, st, cs, h2, h3, h4⟩
+  · refine ⟨⟨fun _ => h1, fun _ => h2⟩, ?_⟩
+    intro st hst; rw [h2] at hst; exact absurd hst (by simp)
+  · refine ⟨⟨fun hn => ?_, fun hl => ?_⟩, ?_⟩
+    · rw [h2] at hn; exact absurd hn (by simp)
+    · exact absurd hl (by omega)
+    · intro st' hst'
+      rw [h2] at hst'
+      simp only [Option.some.injEq] at hst'
+      subst hst'
+      obtain ⟨c1, c2, c3, c4⟩ := h4
+      refine ⟨?_, c3, c4⟩
+      rw [c1, Fcgi.decode_closed role hrole env henv h1 cs h3, c2]
+
+/-- non-vacuity: a 70000-byte body delivered as 1 + 69999 bytes is framed as 1, 65535 and 4464
+    bytes; the stream decodes back -/
+example :
+    (Fcgi.run 1 false [(ofString "CONTENT_LENGTH", ofString "3")] 3 (ofString "a") [ofString "bc"]).map
+      (fun st => (Fcgi.decode st.out, st.pending, st.reqlen)) =
+    some (some { role := 1, flags := 0, env := [(ofString "CONTENT_LENGTH", ofString "3")],
+                 stdin := ofString "abc" }, [], 76) := by decide
+
+/-- the variables of an actual request are never an empty list (the PARAMS stream has content) -/
+theorem c09_env_nonempty (o : CgiOpts) (r : CgiReq) : cgiEnv o r ≠ [] := by
+  simp [cgiEnv, cgiMeta, cgiMetaS, optE]
+
+/-! ## SCGI, uwsgi, CGI -/
+
+/-- scgi_create_env() (SCGI) + body hand-over under every arrival schedule: the backend reads a
+    netstring holding exactly the variables (plus SCGI=1 last) and then exactly the body -/
+theorem c09_scgi_roundtrip (env : List (Bytes × Bytes)) (h : EnvNulFree env) (seg0 : Bytes)
+    (segs : List Bytes) (bodyLen : Int) :
+    Scgi.decode (RawSt.run (Scgi.encodeHeader env) bodyLen seg0 segs).out =
+      some (env ++ [(ofString "SCGI", ofString "1")], (seg0 :: segs).flatten) ∧
+    (RawSt.run (Scgi.encodeHeader env) bodyLen seg0 segs).pending = [] := by
+  rw [rawRun_out]
+  exact ⟨scgi_decode_header env h _, rawRun_pending _ _ _ _⟩
+
+example : Scgi.decode (RawSt.run (Scgi.encodeHeader [(ofString "CONTENT_LENGTH", ofString "2")]) 2
+                         (ofString "h") [ofString "i"]).out =
+    some ([(ofString "CONTENT_LENGTH", ofString "2"), (ofString "SCGI", ofString "1")], ofString "hi") := by
+  decide
+
+/-- scgi_create_env() (uwsgi): when the request is accepted the packet decodes to exactly the
+    variables and the body; it is refused (400 / 431) only when a name, a value or the whole
+    block does not fit the 16-bit size fields -/
+theorem c09_uwsgi_roundtrip (env : List (Bytes × Bytes)) (seg0 : Bytes) (segs : List Bytes)
+    (bodyLen : Int) :
+    (∀ st, Uwsgi.createEnv env bodyLen seg0 = .ok st →
+      Uwsgi.decode ((segs.foldl RawSt.arrive st).moveAll).out = some (env, (seg0 :: segs).flatten)) ∧
+    (∀ c, Uwsgi.createEnv env bodyLen seg0 = .status c →
+      (∃ p ∈ env, p.1.length > 65535 ∨ p.2.length > 65535) ∨
+      (env.flatMap fun p => Uwsgi.pair p.1 p.2).length > 65535) := by
+  have hu : Extracted.C09.ushrtMax = 65535 := rfl
+  constructor
+  · intro st hst
+    simp only [Uwsgi.createEnv] at hst
+    cases ha : Uwsgi.addAll [] env with
+    | none => rw [ha] at hst; simp at hst
+    | some vars =>
+      rw [ha] at hst
+      simp only [hu] at hst
+      by_cases hfit : vars.length > 65535
+      · simp [hfit] at hst
+      · simp only [hfit, ↓reduceIte, Uwsgi.Res.ok.injEq] at hst
+        subst hst
+        have := rawRun_out (Uwsgi.encodeHeader vars) bodyLen seg0 segs
+        simp only [RawSt.run] at this
+        rw [this]
+        exact uwsgi_decode_header env vars _ ha (by omega)
+  · intro c hst
+    simp only [Uwsgi.createEnv] at hst
+    cases ha : Uwsgi.addAll [] env with
+    | none => left; exact uwsgi_addAll_none env [] ha
+    | some vars =>
+      right
+      rw [ha] at hst
+      simp only [hu] at hst
+      by_cases hfit : vars.length > 65535
+      · obtain ⟨h1, _⟩ := uwsgi_addAll_spec env [] vars ha
+        simp only [List.nil_append] at h1
+        rw [← h1]; exact hfit
+      · simp [hfit] at hst
+
+example : Uwsgi.decode (Uwsgi.encodeHeader (Uwsgi.pair (ofString "K") (ofString "v")) ++ ofString "body") =
+    some ([(ofString "K", ofString "v")], ofString "body") := by decide
+
+/-- mod_cgi: the envp block handed to execve() splits back into exactly the variables (names
+    without '=' / NUL, values without NUL — what the request parser guarantees) -/
+theorem c09_cgi_envp_roundtrip (env : List (Bytes × Bytes))
+    (h : ∀ p ∈ env, (61 : UInt8) ∉ p.1 ∧ NulFree p.1 ∧ NulFree p.2) :
+    envpDecode (envpEncode env) = some env :=
+  envpDecode_encode env h
+
+example : envpDecode (envpEncode [(ofString "QUERY_STRING", ofString "a=b"), (ofString "X", [])]) =
+    some [(ofString "QUERY_STRING", ofString "a=b"), (ofString "X", [])] := by decide
+
+/-! ## reverse proxy -/
+
+/-- proxy_create_env(): for every configuration and field, a field that is forwarded is not a
+    connection-management field (Connection, Proxy-Connection, Proxy; also Host and Set-Cookie,
+    which are regenerated / response-only), it has a name and a value, and TE is forwarded only
+    as "trailers" to an HTTP/1.1 backend.  (Transfer-Encoding is consumed by the request parser
+    and never stored: C01.) -/
+theorem c09_hop_by_hop (c : Proxy.Cfg) (version : Nat) (k v : Bytes)
+    (h : Proxy.fieldAct c version k v = .emit) :
+    Proxy.nameIs k "Connection" = false ∧ Proxy.nameIs k "Proxy-Connection" = false ∧
+    Proxy.nameIs k "Proxy" = false ∧ Proxy.nameIs k "Host" = false ∧
+    Proxy.nameIs k "Set-Cookie" = false ∧ k ≠ [] ∧ v ≠ [] ∧
+    (Proxy.nameIs k "TE" = true →
+      eqIcase v (ofString "trailers") = true ∧ version ≠ 0 ∧ c.forceHttp10 = false) :=
+  Proxy.fieldAct_emit c version k v h
+
+example : Proxy.emitFields {} 1 [(ofString "Connection", ofString "keep-alive, X"),
+    (ofString "X", ofString "1"), (ofString "Proxy-Connection", ofString "keep-alive"),
+    (ofString "TE", ofString "gzip"), (ofString "proxy", ofString "evil")] =
+    ofString "\r\nX: 1" := by decide
+
+/-- proxy_stdin_append() under every arrival schedule (chunked upload of a streamed request
+    body): the chunked transfer coding sent to the backend decodes to exactly the body, with
+    one last-chunk and nothing after it -/
+theorem c09_proxy_chunked_roundtrip (hdr : Bytes) (hh : 1 < hdr.length) (seg0 : Bytes)
+    (segs : List Bytes) :
+    ∃ stream, (Proxy.runChunked hdr seg0 segs).out = hdr ++ stream ∧
+      Proxy.dechunk (stream.length + 1) stream = some ((seg0 :: segs).flatten, []) ∧
+      (Proxy.runChunked hdr seg0 segs).pending = [] :=
+  Proxy.runChunked_spec' hdr hh seg0 segs
+
+example : (Proxy.runChunked (ofString "GET / HTTP/1.1\r\n\r\n") (ofString "ab") [[], ofString "c"]).out =
+    ofString "GET / HTTP/1.1\r\n\r\n02\r\nab\r\n01\r\nc\r\n0\r\n\r\n" := by decide
 
 end LtVerif.C09
